@@ -639,3 +639,63 @@ pub fn edits(name: &str, dist: usize) -> Vec<String> {
     }
     all.into_iter().collect()
 }
+
+// ------------------------------------------------------------------ name-clash corpus (C20)
+
+pub const CLASH_IDENTS: [&str; 50] = [
+    "default", "skip", "map", "with", "rename", "multiple", "flatten", "word", "attributes", "supports", "and_then", "from_word", "from_none", "bound",
+    "errors", "items", "item", "inner", "name", "other", "len", "val", "value", "lit", "outer", "nested", "data", "attr", "fwd_attrs", "body",
+    "ident", "vis", "ty", "attrs", "generics", "fields", "bounds", "discriminant",
+    "r#type", "r#match", "r#fn", "r#struct", "result", "darling", "syn", "core", "std", "di", "meta", "error",
+];
+
+/// Receivers whose ordinary field / variant names coincide with darling's option words, the
+/// un-prefixed forms of generated locals, magic-field names (on FromMeta, where they are not
+/// magic) and raw identifiers; every field kind of the struct corpus appears next to them.
+pub fn clash_corpus() -> Vec<Program> {
+    let mut out = vec![];
+    let magic_names = ["ident", "vis", "ty", "attrs", "generics", "fields", "bounds", "discriminant", "data", "default"];
+    for (i, id) in CLASH_IDENTS.iter().enumerate() {
+        for t in Trait::ALL {
+            if t != Trait::FromMeta && magic_names.contains(id) {
+                continue; // magic there: a different meaning, covered by C16
+            }
+            let mut pool: Vec<Decl> = vec![Decl::Struct(StructDecl::new(t, vec![]))];
+            let k1 = [0usize, 2, 3, 5, 6, 12, 1, 11][i % 8];
+            let k2 = [7usize, 8, 9, 10, 4, 3, 2, 6][(i / 2) % 8];
+            let mut f1 = kind_field(k1, 0, &mut pool);
+            f1.rust = id.to_string();
+            let f2 = kind_field(k2, 1, &mut pool);
+            let mut f3 = kind_field(0, 2, &mut pool);
+            f3.rust = CLASH_IDENTS[(i + 7) % CLASH_IDENTS.len()].to_string();
+            if f3.rust == f1.rust || (t != Trait::FromMeta && magic_names.contains(&f3.rust.as_str())) {
+                f3.rust = "plain_z".into();
+            }
+            let mut s = StructDecl::new(t, vec![f1, f2, f3]);
+            apply_config(&mut s, [0usize, 1, 2, 3, 4, 5][i % 6]);
+            if s.rule == Rule::Kebab {
+                s.rule = Rule::None;
+            }
+            pool[0] = Decl::Struct(s);
+            out.push(Program { decls: pool, root: 0, family: format!("clash field `{id}` {}", t.name()) });
+        }
+        // as a variant name (unit, newtype and struct variants) and as a struct-variant field
+        if !id.starts_with("r#") || *id == "r#type" {
+            let variants = vec![
+                Variant { rust: id.to_string(), rename: None, skip: false, word: None, body: VBody::Unit },
+                Variant { rust: format!("{}_n", id.trim_start_matches("r#")), rename: None, skip: false, word: None, body: VBody::Newtype(Ty::U32) },
+                Variant { rust: "Holder".into(), rename: None, skip: false, word: None, body: VBody::Struct(vec![Field::new(id, Ty::U32), Field::new(if *id == "errors" { "items" } else { "errors" }, Ty::OptU32)]) },
+            ];
+            out.push(Program { decls: vec![Decl::Enum(EnumDecl { rule: None, from_word: false, from_none: false, allow_unknown: None, variants })], root: 0, family: format!("clash variant `{id}`") });
+        }
+    }
+    // prelude-like variant names
+    for id in ["None", "Some", "Ok", "Err", "Self_", "Vec", "Option", "Result", "String", "Box", "Default"] {
+        let variants = vec![
+            Variant { rust: id.to_string(), rename: None, skip: false, word: None, body: VBody::Unit },
+            Variant { rust: "Other".into(), rename: None, skip: false, word: None, body: VBody::Newtype(Ty::OptU32) },
+        ];
+        out.push(Program { decls: vec![Decl::Enum(EnumDecl { rule: None, from_word: false, from_none: false, allow_unknown: None, variants })], root: 0, family: format!("clash variant `{id}`") });
+    }
+    out
+}
